@@ -1,13 +1,640 @@
+// nutslint: repository-specific static checker for xujiajun/nutsdb.
+//
+// It decides structural necessary conditions of the properties in
+// /verif/properties.jsonl from the type-checked SSA form, control-flow graphs
+// and call graph of the current source tree. It never runs nutsdb.
 package main
 
 import (
+	"encoding/json"
+	"flag"
 	"fmt"
+	"os"
+	"path/filepath"
+	"runtime/debug"
+	"sort"
+	"strings"
+	"time"
 
-	_ "golang.org/x/tools/go/callgraph/cha"
-	_ "golang.org/x/tools/go/callgraph/vta"
-	_ "golang.org/x/tools/go/packages"
-	_ "golang.org/x/tools/go/ssa"
-	_ "golang.org/x/tools/go/ssa/ssautil"
+	"golang.org/x/tools/go/ssa"
 )
 
-func main() { fmt.Println("nutslint") }
+// Obligation is one rule instance bound to one construct of the source.
+type Obligation struct {
+	Rule      string   `json:"rule"`
+	Construct string   `json:"construct"`
+	Detail    string   `json:"detail,omitempty"`
+	Status    string   `json:"status"` // discharged | violated | undecided
+	Pos       string   `json:"pos,omitempty"`
+	Msg       string   `json:"msg,omitempty"`
+	Witness   []string `json:"witness,omitempty"`
+}
+
+func (o *Obligation) Key() string {
+	k := o.Rule + " | " + o.Construct
+	if o.Detail != "" {
+		k += " | " + o.Detail
+	}
+	return k
+}
+
+// Ctx is what a rule gets: the program and a sink for obligations.
+type Ctx struct {
+	P      *Prog
+	Obs    []*Obligation
+	rule   string
+	Funcs  map[string]bool // functions analysed (for evidence)
+	Sites  int             // call sites / instructions examined
+	Tier   string
+	fx     *Effects
+	notes  []string
+	counts map[string]int
+}
+
+func (c *Ctx) ob(construct, detail, status, pos, msg string, witness ...string) *Obligation {
+	o := &Obligation{Rule: c.rule, Construct: construct, Detail: detail, Status: status, Pos: pos, Msg: msg, Witness: witness}
+	c.Obs = append(c.Obs, o)
+	return o
+}
+
+func (c *Ctx) ok(construct, detail, pos, msg string) { c.ob(construct, detail, "discharged", pos, msg) }
+func (c *Ctx) bad(construct, detail, pos, msg string, w ...string) {
+	c.ob(construct, detail, "violated", pos, msg, w...)
+}
+func (c *Ctx) undecided(construct, detail, pos, msg string) {
+	c.ob(construct, detail, "undecided", pos, msg)
+}
+func (c *Ctx) check(cond bool, construct, detail, pos, okMsg, badMsg string, w ...string) {
+	if cond {
+		c.ok(construct, detail, pos, okMsg)
+	} else {
+		c.bad(construct, detail, pos, badMsg, w...)
+	}
+}
+func (c *Ctx) touch(fn *ssa.Function) {
+	if fn != nil {
+		c.Funcs[fnName(fn)] = true
+	}
+}
+
+// minInstances turns "the rule matched fewer constructs than were confirmed by
+// hand" into an undecided obligation: a rule that matches nothing must not pass.
+func (c *Ctx) minInstances(what string, got, want int) {
+	if got < want {
+		c.undecided("instance-count", what, "", fmt.Sprintf("rule matched %d %s, at least %d were confirmed by reading the code; the anchors moved and the rule must be re-confirmed", got, what, want))
+	}
+}
+
+func (c *Ctx) witnessOf(path []ssa.Instruction) []string {
+	var out []string
+	last := ""
+	for _, in := range path {
+		s := c.P.ipos(in) + ": " + shortInstr(in)
+		if s != last {
+			out = append(out, s)
+		}
+		last = s
+	}
+	return out
+}
+
+func shortInstr(in ssa.Instruction) string {
+	s := in.String()
+	if v, ok := in.(ssa.Value); ok {
+		s = v.Name() + " = " + s
+	}
+	if len(s) > 140 {
+		s = s[:140] + "…"
+	}
+	return s
+}
+
+type Rule struct {
+	Name string
+	Text string
+	Run  func(c *Ctx)
+}
+
+type Property struct {
+	ID      string
+	Rules   []string
+	Explain string // what the structural claim is
+	NotCov  string
+	Assume  []string
+}
+
+// ---- known findings -------------------------------------------------------
+
+type Finding struct {
+	ID         string   `json:"id"`
+	Properties []string `json:"properties"`
+	Keys       []string `json:"keys"`
+	What       string   `json:"what"`
+	Repro      string   `json:"reproduction,omitempty"`
+	Status     string   `json:"status"` // known | fixed
+	Commit     string   `json:"commit,omitempty"`
+	Line       string   `json:"line,omitempty"`
+}
+
+type FindingsFile struct {
+	Comment  string    `json:"comment"`
+	Findings []Finding `json:"findings"`
+}
+
+func loadFindings(path string) []Finding {
+	b, err := os.ReadFile(path)
+	if err != nil {
+		return nil
+	}
+	var ff FindingsFile
+	if err := json.Unmarshal(b, &ff); err != nil {
+		fail("cannot parse %s: %v", path, err)
+	}
+	return ff.Findings
+}
+
+// ---- evidence -------------------------------------------------------------
+
+type Evidence struct {
+	PropertyID  string                 `json:"property_id"`
+	Tier        string                 `json:"tier"`
+	Seed        int                    `json:"seed"`
+	Level       string                 `json:"level"`
+	Coverage    map[string]interface{} `json:"coverage"`
+	Assumptions []string               `json:"assumptions"`
+	WallS       float64                `json:"wall_s"`
+	Violations  int                    `json:"violations"`
+}
+
+var commonAssumptions = []string{
+	"go/types, go/ssa and the CHA/VTA call-graph construction of golang.org/x/tools v0.29.0 are trusted",
+	"the nutsdb packages use no reflection on their own types beyond encoding/binary on BinaryNode, no unsafe beyond unsafe.Sizeof, no cgo and no go statements (checked syntactically on every run by rule no-go-stmt where claimed)",
+	"library functions behave as the effect/IO tables of the checker say (os.OpenFile flags, (*os.File).WriteAt/Sync, mmap.Flush, sort.Sort, copy, append)",
+	"a Tx is used by one goroutine while open; user callbacks passed to View/Update are outside the analysed program",
+	"verdicts are structural necessary conditions of the property, not the behaviour itself (see DESIGN.md section 0)",
+}
+
+func verifDir() string {
+	if d := os.Getenv("VERIF_DIR"); d != "" {
+		return d
+	}
+	exe, err := os.Executable()
+	if err == nil {
+		d := filepath.Dir(filepath.Dir(exe))
+		if _, err := os.Stat(filepath.Join(d, "MANIFEST.json")); err == nil {
+			return d
+		}
+	}
+	wd, _ := os.Getwd()
+	return wd
+}
+
+func main() {
+	var (
+		propID  = flag.String("property", "", "property id (C01..C22), or 'all'")
+		tier    = flag.String("tier", "quick", "quick | thorough")
+		repo    = flag.String("repo", "", "path of the nutsdb tree (default $NUTSDB_REPO or /repo)")
+		replay  = flag.String("replay", "", "re-evaluate the obligation recorded in this violation file")
+		listF   = flag.Bool("list", false, "list properties and rules")
+		noEvid  = flag.Bool("no-evidence", false, "do not write evidence files (used by self-tests)")
+		rulesF  = flag.String("rules", "", "run only these comma-separated rules and print their obligations (debugging)")
+		verbose = flag.Bool("v", false, "print every obligation")
+		jsonOut = flag.String("json", "", "write all obligations of the run as JSON to this file (self-tests)")
+	)
+	flag.Parse()
+	if *repo == "" {
+		*repo = os.Getenv("NUTSDB_REPO")
+	}
+	if *repo == "" {
+		*repo = "/repo"
+	}
+	if t := os.Getenv("VERIF_TIER"); t != "" && !flagSet("tier") {
+		*tier = t
+	}
+	if *listF {
+		for _, p := range properties {
+			fmt.Printf("%s: %s\n", p.ID, strings.Join(p.Rules, " "))
+		}
+		return
+	}
+	if *replay != "" {
+		os.Exit(doReplay(*replay, *repo))
+	}
+	if *rulesF != "" {
+		os.Exit(runRulesDebug(*repo, strings.Split(*rulesF, ","), *verbose, *jsonOut))
+	}
+	if *propID == "" {
+		fmt.Fprintln(os.Stderr, "usage: nutslint -property Cxx [-tier quick|thorough]")
+		os.Exit(2)
+	}
+	if *tier == "thorough" {
+		os.Exit(runThorough(*propID, *repo, *noEvid, *verbose))
+	}
+	code := 0
+	for _, pr := range selectProps(*propID) {
+		if c := runProperty(pr, *repo, "quick", "", "", "vta", *noEvid, *verbose, nil); c > code {
+			code = c
+		}
+	}
+	os.Exit(code)
+}
+
+func flagSet(name string) bool {
+	set := false
+	flag.Visit(func(f *flag.Flag) {
+		if f.Name == name {
+			set = true
+		}
+	})
+	return set
+}
+
+func selectProps(id string) []*Property {
+	if id == "all" {
+		var out []*Property
+		for i := range properties {
+			out = append(out, &properties[i])
+		}
+		return out
+	}
+	for i := range properties {
+		if properties[i].ID == id {
+			return []*Property{&properties[i]}
+		}
+	}
+	fmt.Fprintf(os.Stderr, "unknown or unclaimed property %s\n", id)
+	os.Exit(2)
+	return nil
+}
+
+var progCache = map[string]*Prog{}
+
+func getProg(repo, goarch, goos, cg string) *Prog {
+	k := repo + "|" + goarch + "|" + goos + "|" + cg
+	if p, ok := progCache[k]; ok {
+		return p
+	}
+	memCache = map[*ssa.Function]*funcMem{}
+	p := loadProg(repo, goarch, goos, cg)
+	progCache = map[string]*Prog{k: p} // keep one program in memory at a time
+	return p
+}
+
+// runRules runs the named rules and returns the context. Panics of kind
+// undecided are turned into an undecided obligation.
+func runRules(p *Prog, names []string, tier string) (c *Ctx) {
+	c = &Ctx{P: p, Funcs: map[string]bool{}, Tier: tier, counts: map[string]int{}}
+	for _, n := range names {
+		r, ok := rules[n]
+		if !ok {
+			c.rule = n
+			c.undecided("rule", n, "", "rule not implemented")
+			continue
+		}
+		c.rule = n
+		func() {
+			defer func() {
+				if e := recover(); e != nil {
+					if u, ok := e.(undecided); ok {
+						c.undecided("engine", n, "", u.msg)
+						return
+					}
+					c.undecided("engine-panic", n, "", fmt.Sprintf("%v\n%s", e, debug.Stack()))
+				}
+			}()
+			r.Run(c)
+		}()
+	}
+	return c
+}
+
+type runExtra struct {
+	config   string
+	selftest map[string]interface{}
+}
+
+// runProperty evaluates one property and returns the exit code (0,1,2).
+func runProperty(pr *Property, repo, tier, goarch, goos, cg string, noEvid, verbose bool, extra *runExtra) int {
+	start := time.Now()
+	var c *Ctx
+	var p *Prog
+	func() {
+		defer func() {
+			if e := recover(); e != nil {
+				c = &Ctx{Funcs: map[string]bool{}}
+				c.rule = "load"
+				if u, ok := e.(undecided); ok {
+					c.undecided("load", "", "", u.msg)
+				} else {
+					c.undecided("load", "", "", fmt.Sprintf("panic: %v\n%s", e, debug.Stack()))
+				}
+			}
+		}()
+		p = getProg(repo, goarch, goos, cg)
+		c = runRules(p, pr.Rules, tier)
+	}()
+	code := report(pr, c, p, repo, tier, goarch, goos, cg, noEvid, verbose, time.Since(start).Seconds(), extra)
+	return code
+}
+
+func report(pr *Property, c *Ctx, p *Prog, repo, tier, goarch, goos, cg string, noEvid, verbose bool, wall float64, extra *runExtra) int {
+	vdir := verifDir()
+	findings := loadFindings(filepath.Join(vdir, "known_findings.json"))
+	known := map[string]*Finding{}
+	for i := range findings {
+		f := &findings[i]
+		if f.Status != "known" {
+			continue
+		}
+		for _, pid := range f.Properties {
+			if pid == pr.ID {
+				for _, k := range f.Keys {
+					known[k] = f
+				}
+			}
+		}
+	}
+	sort.SliceStable(c.Obs, func(i, j int) bool { return c.Obs[i].Key() < c.Obs[j].Key() })
+	// duplicate keys would make known-finding matching ambiguous: disambiguate deterministically
+	seenKey := map[string]int{}
+	for _, o := range c.Obs {
+		seenKey[o.Key()]++
+		if n := seenKey[o.Key()]; n > 1 {
+			o.Detail = fmt.Sprintf("%s #%d", o.Detail, n)
+		}
+	}
+	var nDis, nVio, nUnd, nKnown int
+	var violLines, knownLines, undLines []string
+	matched := map[string][]string{}
+	constructs := map[string]bool{}
+	for _, o := range c.Obs {
+		constructs[o.Rule+"|"+o.Construct] = true
+		switch o.Status {
+		case "discharged":
+			nDis++
+		case "undecided":
+			nUnd++
+			undLines = append(undLines, fmt.Sprintf("UNDECIDED property=%s %s — %s", pr.ID, o.Key(), firstLine(o.Msg)))
+		case "violated":
+			if f, ok := known[o.Key()]; ok {
+				nKnown++
+				matched[f.ID] = append(matched[f.ID], o.Key())
+				continue
+			}
+			nVio++
+			path := ""
+			if !noEvid {
+				path = writeViolation(vdir, pr.ID, o, repo)
+			}
+			violLines = append(violLines, fmt.Sprintf("VIOLATION property=%s replay=%s", pr.ID, path))
+			violLines = append(violLines, fmt.Sprintf("  rule=%s construct=%s detail=%s at %s: %s", o.Rule, o.Construct, o.Detail, o.Pos, o.Msg))
+			for _, w := range o.Witness {
+				violLines = append(violLines, "    "+w)
+			}
+		}
+	}
+	var fids []string
+	for id := range matched {
+		fids = append(fids, id)
+	}
+	sort.Strings(fids)
+	for _, id := range fids {
+		var f *Finding
+		for i := range findings {
+			if findings[i].ID == id {
+				f = &findings[i]
+			}
+		}
+		knownLines = append(knownLines, fmt.Sprintf("KNOWN-FINDING: property=%s %s %s (%d obligation(s): %s)", pr.ID, f.ID, f.What, len(matched[id]), strings.Join(matched[id], "; ")))
+	}
+	cfgName := "default"
+	if extra != nil && extra.config != "" {
+		cfgName = extra.config
+	}
+	fmt.Printf("nutslint property=%s tier=%s config=%s rules=%d obligations=%d discharged=%d known=%d violated=%d undecided=%d functions=%d wall=%.1fs\n",
+		pr.ID, tier, cfgName, len(pr.Rules), len(c.Obs), nDis, nKnown, nVio, nUnd, len(c.Funcs), wall)
+	if verbose {
+		for _, o := range c.Obs {
+			fmt.Printf("  [%s] %s @%s — %s\n", o.Status, o.Key(), o.Pos, firstLine(o.Msg))
+		}
+	}
+	for _, l := range knownLines {
+		fmt.Println(l)
+	}
+	for _, l := range undLines {
+		fmt.Println(l)
+	}
+	for _, l := range violLines {
+		fmt.Println(l)
+	}
+	if !noEvid {
+		writeEvidence(vdir, pr, c, p, tier, cfgName, nDis, nVio, nUnd, nKnown, len(constructs), knownLines, wall, extra)
+	}
+	switch {
+	case nVio > 0:
+		return 1
+	case nUnd > 0:
+		return 2
+	}
+	return 0
+}
+
+func firstLine(s string) string {
+	if i := strings.IndexByte(s, '\n'); i >= 0 {
+		return s[:i]
+	}
+	return s
+}
+
+type violationFile struct {
+	Property   string      `json:"property"`
+	Obligation *Obligation `json:"obligation"`
+	Repo       string      `json:"repo"`
+	Rules      []string    `json:"rules"`
+	Help       string      `json:"help"`
+}
+
+func sanitize(s string) string {
+	var b strings.Builder
+	for _, r := range s {
+		switch {
+		case r >= 'a' && r <= 'z', r >= 'A' && r <= 'Z', r >= '0' && r <= '9', r == '-', r == '.':
+			b.WriteRune(r)
+		default:
+			b.WriteRune('_')
+		}
+	}
+	s = b.String()
+	if len(s) > 120 {
+		s = s[:120]
+	}
+	return s
+}
+
+func writeViolation(vdir, pid string, o *Obligation, repo string) string {
+	dir := filepath.Join(vdir, "evidence", "violations")
+	os.MkdirAll(dir, 0o755)
+	path := filepath.Join(dir, pid+"-"+sanitize(o.Key())+".json")
+	vf := violationFile{Property: pid, Obligation: o, Repo: repo, Rules: []string{o.Rule},
+		Help: "nutslint -replay <this file> re-evaluates rule " + o.Rule + " on the current tree and prints the obligation with its witness path"}
+	b, _ := json.MarshalIndent(vf, "", " ")
+	os.WriteFile(path, b, 0o644)
+	return path
+}
+
+func doReplay(path, repo string) int {
+	b, err := os.ReadFile(path)
+	if err != nil {
+		fmt.Fprintln(os.Stderr, err)
+		return 2
+	}
+	var vf violationFile
+	if err := json.Unmarshal(b, &vf); err != nil {
+		fmt.Fprintln(os.Stderr, err)
+		return 2
+	}
+	code := 0
+	func() {
+		defer func() {
+			if e := recover(); e != nil {
+				fmt.Println("UNDECIDED:", e)
+				code = 2
+			}
+		}()
+		p := getProg(repo, "", "", "vta")
+		c := runRules(p, vf.Rules, "quick")
+		found := false
+		for _, o := range c.Obs {
+			if o.Key() == vf.Obligation.Key() {
+				found = true
+				fmt.Printf("[%s] %s\n  at %s\n  %s\n", o.Status, o.Key(), o.Pos, o.Msg)
+				for _, w := range o.Witness {
+					fmt.Println("    " + w)
+				}
+				if o.Status == "violated" {
+					fmt.Printf("VIOLATION property=%s replay=%s\n", vf.Property, path)
+					code = 1
+				}
+			}
+		}
+		if !found {
+			fmt.Printf("obligation %q no longer exists on the current tree (rule %s produced %d obligations)\n", vf.Obligation.Key(), vf.Rules[0], len(c.Obs))
+		}
+	}()
+	return code
+}
+
+func runRulesDebug(repo string, names []string, verbose bool, jsonOut string) int {
+	code := 0
+	defer func() {
+		if e := recover(); e != nil {
+			fmt.Println("UNDECIDED:", e)
+			os.Exit(2)
+		}
+	}()
+	p := getProg(repo, "", "", "vta")
+	if len(names) == 1 && names[0] == "all" {
+		names = nil
+		for n := range rules {
+			names = append(names, n)
+		}
+		sort.Strings(names)
+	}
+	c := runRules(p, names, "quick")
+	sort.SliceStable(c.Obs, func(i, j int) bool { return c.Obs[i].Key() < c.Obs[j].Key() })
+	for _, o := range c.Obs {
+		if o.Status != "discharged" || verbose {
+			fmt.Printf("[%s] %s @%s\n    %s\n", o.Status, o.Key(), o.Pos, o.Msg)
+			for _, w := range o.Witness {
+				fmt.Println("      " + w)
+			}
+		}
+		if o.Status == "violated" && code < 1 {
+			code = 1
+		}
+		if o.Status == "undecided" {
+			code = 2
+		}
+	}
+	fmt.Printf("%d obligations\n", len(c.Obs))
+	if jsonOut != "" {
+		b, _ := json.MarshalIndent(c.Obs, "", " ")
+		os.WriteFile(jsonOut, b, 0o644)
+	}
+	return code
+}
+
+func writeEvidence(vdir string, pr *Property, c *Ctx, p *Prog, tier, cfgName string, nDis, nVio, nUnd, nKnown, nConstructs int, knownLines []string, wall float64, extra *runExtra) {
+	os.MkdirAll(filepath.Join(vdir, "evidence"), 0o755)
+	var samples []interface{}
+	perRule := map[string]map[string]int{}
+	for _, o := range c.Obs {
+		if perRule[o.Rule] == nil {
+			perRule[o.Rule] = map[string]int{}
+		}
+		perRule[o.Rule][o.Status]++
+	}
+	// samples: up to 3 obligations per rule, all non-discharged ones first
+	cnt := map[string]int{}
+	for _, o := range c.Obs {
+		if o.Status != "discharged" && len(samples) < 60 {
+			samples = append(samples, o)
+		}
+	}
+	for _, o := range c.Obs {
+		if o.Status == "discharged" && cnt[o.Rule] < 3 {
+			cnt[o.Rule]++
+			samples = append(samples, o)
+		}
+	}
+	var ruleTexts []map[string]interface{}
+	for _, rn := range pr.Rules {
+		r := rules[rn]
+		t := ""
+		if r != nil {
+			t = r.Text
+		}
+		ruleTexts = append(ruleTexts, map[string]interface{}{"rule": rn, "text": t, "obligations": perRule[rn]})
+	}
+	var fns []string
+	for f := range c.Funcs {
+		fns = append(fns, f)
+	}
+	sort.Strings(fns)
+	seed := 0
+	fmt.Sscanf(os.Getenv("VERIF_SEED"), "%d", &seed)
+	cov := map[string]interface{}{
+		"explanation":            pr.Explain + " NOT COVERED: " + pr.NotCov,
+		"obligations":            len(c.Obs),
+		"discharged":             nDis,
+		"violated_unlisted":      nVio,
+		"violated_known":         nKnown,
+		"undecided":              nUnd,
+		"evaluations":            len(c.Obs),
+		"distinct_nontrivial":    nConstructs,
+		"rule":                   "one obligation per (rule, construct, detail) discovered in the current source; distinct_nontrivial counts distinct (rule, construct) pairs, i.e. obligations bound to different source constructs",
+		"samples":                samples,
+		"rules":                  ruleTexts,
+		"functions_analysed":     fns,
+		"functions_analysed_n":   len(fns),
+		"known_findings_matched": knownLines,
+		"checker_cmd":            "bin/nutslint -property " + pr.ID + " -tier " + tier,
+		"trusted_base":           []string{"go/types", "go/ssa + go/callgraph (x/tools v0.29.0)", "nutslint library effect tables"},
+		"exhaustive":             true,
+		"config":                 cfgName,
+	}
+	if p != nil {
+		cov["program"] = map[string]interface{}{
+			"repo": p.Root, "packages": len(p.ModPkgs), "module_functions": len(p.SrcFuncs), "callgraph": p.CGKind, "callgraph_nodes": len(p.CG.Nodes),
+		}
+	}
+	if extra != nil && extra.selftest != nil {
+		for k, v := range extra.selftest {
+			cov[k] = v
+		}
+	}
+	ev := Evidence{PropertyID: pr.ID, Tier: tier, Seed: seed, Level: "other", Coverage: cov,
+		Assumptions: append(append([]string{}, commonAssumptions...), pr.Assume...), WallS: wall, Violations: nVio}
+	b, _ := json.MarshalIndent(ev, "", " ")
+	os.WriteFile(filepath.Join(vdir, "evidence", pr.ID+".json"), b, 0o644)
+}
